@@ -393,6 +393,11 @@ def all_jobs():
                   props=['C01', 'C05', 'C10'], pretty='bloc::TOKENIZEExpression::tokenize', canaries=['normal'], unwind=6, bounded_inputs=True,
                   unwind_why='subject of at most 3 bytes, separator of at most 2 bytes (every content)', enums=['bloc::Type::TypeMajor'],
                   structs=['bloc::Value', 'bloc::Type', STD_STRING, 'bloc::Collection', 'bloc::TOKENIZEExpression']))
+    mg = '_ZN9CSVParser9serializeERNSt7__cxx1112basic_stringIcSt11char_traitsIcESaIcEEERKSt6vectorIS5_SaIS5_EE'
+    J.append(dict(id='csv_serialize', src='modules/csv/csvparser.cpp', contract='csv_serialize.c', enforce=mg, roots=[mg], replace=[], cut=[],
+                  props=['C01', 'C18'], pretty='CSVParser::serialize', canaries=['normal'], unwind=8, bounded_inputs=True,
+                  unwind_why='rows of at most 2 fields of at most 2 bytes (every content, separator and quote character)', enums=[],
+                  structs=['CSVParser', STD_STRING]))
     # ---- generic builtin contracts (C01, C05): one job per builtin listed here ----
     for ent in BUILTINS_GENERIC:
         name, cls, nargs = ent[0], ent[1], ent[2]
